@@ -11,27 +11,27 @@ import (
 
 func init() {
 	register(&Rule{
-		ID: "OWN-CTOR", Props: []string{"C01", "C11", "C13"}, Floor: 9,
+		ID: "OWN-CTOR", Props: []string{"C01", "C11", "C13", "C17"}, Floor: 9,
 		Doc: "each owning constructor returns a fresh copy, or its argument only on the edge where the node's txnID equals the transaction's, and stamps fresh copies with the transaction's current txnID; header.clone/promote/newLeaf return fresh nodes and clone copies the node of the same kind",
 		Run: ruleOwnCtor,
 	})
 	register(&Rule{
-		ID: "TXNID-STORES", Props: []string{"C01", "C11", "C13"}, Floor: 8,
+		ID: "TXNID-STORES", Props: []string{"C01", "C11", "C13", "C17"}, Floor: 8,
 		Doc: "every store to a node's txnID writes the current id of the transaction (directly, or through a txnID parameter whose call sites pass it): a node carries id T only if it was created in epoch T",
 		Run: ruleTxnIDStores,
 	})
 	register(&Rule{
-		ID: "HELPER-SHAPE", Props: []string{"C01", "C11"}, Floor: 7,
+		ID: "HELPER-SHAPE", Props: []string{"C01", "C11", "C17"}, Floor: 7,
 		Doc: "the alias-returning helpers the ownership analysis trusts (self, node4/16/48/256, children, getLeaf, isLeaf) have the bodies it assumes",
 		Run: ruleHelperShape,
 	})
 	register(&Rule{
-		ID: "FREEZE", Props: []string{"C01", "C11", "C13"}, Floor: 9,
+		ID: "FREEZE", Props: []string{"C01", "C11", "C13", "C17"}, Floor: 9,
 		Doc: "a transaction method that lets node pointers reachable from txn.root escape (iterator, tree, trie, Iterator.All with a caller's yield) increments txn.txnID before every read of txn.root that can escape",
 		Run: ruleFreeze,
 	})
 	register(&Rule{
-		ID: "EPOCH", Props: []string{"C01", "C11", "C13"}, Floor: 5,
+		ID: "EPOCH", Props: []string{"C01", "C11", "C13", "C17"}, Floor: 5,
 		Doc: "a Tree built from a transaction takes nextTxnID from the incremented txn.txnID and Tree.Txn starts there; a Trie records prevTxnID=txn.txnID and Trie.Txn/Txn.Reuse start at prevTxnID+1: a later transaction never shares an id with nodes of a published version",
 		Run: ruleEpoch,
 	})
@@ -73,7 +73,7 @@ func ruleOwnCtor(c *Ctx, r *Reporter) {
 		nodeParam       int
 		props           []string
 	}{
-		{"part", "Txn", "cloneNode", 1, []string{"C01", "C11"}},
+		{"part", "Txn", "cloneNode", 1, []string{"C01", "C11", "C17"}},
 		{"lpm", "Txn", "clone", 1, []string{"C01", "C13"}},
 	} {
 		fn := c.Func(spec.pkg, spec.recv, spec.name)
@@ -172,9 +172,9 @@ func ruleOwnCtor(c *Ctx, r *Reporter) {
 			key := fmt.Sprintf("%s|return#%d", n, i+1)
 			cl := im.classify(ret.Results[0], fn, ret.Block())
 			if len(cl.shared) == 0 && len(cl.params) == 0 {
-				r.okP([]string{"C01", "C11"}, key, c.posStr(instrPos(ret)), "returns a node allocated in the function")
+				r.okP([]string{"C01", "C11", "C17"}, key, c.posStr(instrPos(ret)), "returns a node allocated in the function")
 			} else {
-				r.badP([]string{"C01", "C11"}, key, c.posStr(instrPos(ret)), "a node constructor the ownership analysis treats as fresh returns shared memory")
+				r.badP([]string{"C01", "C11", "C17"}, key, c.posStr(instrPos(ret)), "a node constructor the ownership analysis treats as fresh returns shared memory")
 			}
 		}
 	}
@@ -206,7 +206,7 @@ func ruleOwnCtor(c *Ctx, r *Reporter) {
 					}
 				}
 			}
-			r.checkP([]string{"C01", "C11"}, good, key, c.posStr(a.Pos()), "clone copies the whole "+tn+" of its receiver", "clone does not copy the complete "+tn+" of its receiver")
+			r.checkP([]string{"C01", "C11", "C17"}, good, key, c.posStr(a.Pos()), "clone copies the whole "+tn+" of its receiver", "clone does not copy the complete "+tn+" of its receiver")
 		}
 		if n < 5 {
 			r.undecided("part.(header).clone|kinds", c.posStr(fn.Pos()), fmt.Sprintf("expected 5 node kinds copied in clone, found %d", n))
@@ -253,7 +253,7 @@ func ruleTxnIDStores(c *Ctx, r *Reporter) {
 			}
 			key := fmt.Sprintf("%s|store %s.txnID", c.fnName(fn), tn)
 			pos := c.posStr(instrPos(st))
-			props := []string{"C01", "C11"}
+			props := []string{"C01", "C11", "C17"}
 			if tn == "lpmNode" {
 				props = []string{"C01", "C13"}
 			}
@@ -289,7 +289,7 @@ func ruleTxnIDStores(c *Ctx, r *Reporter) {
 				continue
 			}
 			key := fmt.Sprintf("%s|call %s(txnID)", c.fnName(e.Caller), fn.Name())
-			props := []string{"C01", "C11"}
+			props := []string{"C01", "C11", "C17"}
 			if _, ok := isTxnIDLoad(args[pi]); ok {
 				r.okP(props, key, c.posStr(instrPos(e.Site)), "passes the transaction's current txnID")
 			} else if p, ok := args[pi].(*ssa.Parameter); ok && isUint64(p.Type()) {
@@ -302,7 +302,7 @@ func ruleTxnIDStores(c *Ctx, r *Reporter) {
 }
 
 func ruleHelperShape(c *Ctx, r *Reporter) {
-	props := []string{"C01", "C11"}
+	props := []string{"C01", "C11", "C17"}
 	for n := range aliasHelpers {
 		var fn *ssa.Function
 		for _, f := range c.Funcs {
@@ -428,7 +428,7 @@ func txnIDIncrements(fn *ssa.Function) []*ssa.Store {
 
 func ruleFreeze(c *Ctx, r *Reporter) {
 	for _, pkg := range []string{"part", "lpm"} {
-		props := []string{"C01", "C11"}
+		props := []string{"C01", "C11", "C17"}
 		if pkg == "lpm" {
 			props = []string{"C01", "C13"}
 		}
@@ -578,7 +578,7 @@ func ruleEpoch(c *Ctx, r *Reporter) {
 				continue
 			}
 			key := fmt.Sprintf("%s|%s{root: txn.root}", c.fnName(fn), tn)
-			props := []string{"C01", "C11"}
+			props := []string{"C01", "C11", "C17"}
 			if pk == "lpm" {
 				props = []string{"C01", "C13"}
 			}
@@ -648,7 +648,7 @@ func ruleEpoch(c *Ctx, r *Reporter) {
 		}
 		r.checkP(props, good, key, c.posStr(pos), "the transaction starts at "+exp, "the transaction's txnID does not start at "+exp+": it may equal the id of nodes of a published version")
 	}
-	check("part", "Tree", "Txn", "Tree", "nextTxnID", false, []string{"C01", "C11"})
+	check("part", "Tree", "Txn", "Tree", "nextTxnID", false, []string{"C01", "C11", "C17"})
 	check("lpm", "Trie", "Txn", "Trie", "prevTxnID", true, []string{"C01", "C13"})
 	check("lpm", "Txn", "Reuse", "Trie", "prevTxnID", true, []string{"C01", "C13"})
 }
